@@ -8,6 +8,7 @@ import (
 	"errors"
 	"fmt"
 	"os"
+	"strconv"
 	"strings"
 	"testing"
 	"time"
@@ -42,7 +43,9 @@ type SessCase struct {
 
 var sessModes = []string{"deny-table", "deny-table", "allow-tables", "deny-query", "deny-pattern", "allow-queries"}
 
-const markerBase = 1900000000
+// markerBase: numbers from here on occur only in marked statements. The digits are chosen so that they do not
+// show up in hex dumps of envelope headers (0x19000000-like length fields made 1900000002 appear by chance).
+const markerBase = 1357924000
 
 func genSessCase(t *rapid.T) SessCase {
 	c := SessCase{Mode: rapid.SampledFrom(sessModes).Draw(t, "mode"), Style: rapid.IntRange(0, 5).Draw(t, "yamlstyle")}
@@ -255,6 +258,46 @@ func sessionCensorYAML(c SessCase, sqls []string, finals []string, vs *hx.Vs) st
 	return renderYAML(false, hs, c.Style)
 }
 
+// containsStatement looks for sql as a whole protocol string: NUL-terminated, and either the body of a Query
+// message or preceded by the NUL that ends a statement name in Parse (a rejected statement may well be a
+// prefix of an accepted one).
+func containsStatement(raw []byte, sql string) bool {
+	needle := append([]byte(sql), 0)
+	for from := 0; ; {
+		i := bytes.Index(raw[from:], needle)
+		if i < 0 {
+			return false
+		}
+		i += from
+		if i >= 1 && raw[i-1] == 0 && i >= 2 {
+			return true
+		}
+		if i >= 5 && raw[i-5] == 'Q' && int(binary.BigEndian.Uint32(raw[i-4:i])) == len(needle)+4 {
+			return true
+		}
+		from = i + 1
+	}
+}
+
+// stepMarkers lists the unique numbers a marked statement carries.
+func stepMarkers(st SessStep) []int64 {
+	var out []int64
+	if !st.Mark {
+		return nil
+	}
+	if st.WhereID != nil && *st.WhereID >= markerBase {
+		out = append(out, *st.WhereID)
+	}
+	for _, row := range st.Rows {
+		for _, v := range row {
+			if n, err := strconv.ParseInt(string(v.B), 10, 64); err == nil && !v.Null && n >= markerBase && n < markerBase+100000 {
+				out = append(out, n)
+			}
+		}
+	}
+	return out
+}
+
 func markerBytes(m int64) [][]byte {
 	var b [4]byte
 	binary.BigEndian.PutUint32(b[:], uint32(m))
@@ -418,15 +461,33 @@ func runSession(c SessCase) sessResult {
 			}
 		}
 		for _, bad := range rejectedSQL {
-			if bytes.Contains(raw, []byte(bad)) {
+			if containsStatement(raw, bad) {
 				vs.Add("rejected-statement-reached-database:bytes", "bytes sent to the database contain the rejected statement %q", bad)
 				return vs
 			}
 		}
 		for _, m := range rejectedMarkers {
-			if bytes.Contains(raw, markerBytes(m)[0]) || bytes.Contains(raw, markerBytes(m)[1]) {
-				vs.Add("rejected-statement-reached-database:marker", "bytes sent to the database contain the number %d that occurs only in a rejected statement", m)
-				return vs
+			// the 4-byte binary form is only looked for as a whole bound parameter (random ciphertext bytes could hold it)
+			for _, rc := range recv {
+				for _, pv := range rc.Params {
+					if rc.Kind == "B" && bytes.Equal(pv.Data, markerBytes(m)[1]) {
+						vs.Add("rejected-statement-reached-database:marker", "the database received a Bind with the number %d (binary) that occurs only in a rejected statement", m)
+						return vs
+					}
+				}
+			}
+			for _, enc := range markerBytes(m)[:1] {
+				if i := bytes.Index(raw, enc); i >= 0 {
+					lo, hi := i-48, i+len(enc)+48
+					if lo < 0 {
+						lo = 0
+					}
+					if hi > len(raw) {
+						hi = len(raw)
+					}
+					vs.Add("rejected-statement-reached-database:marker", "bytes sent to the database contain the number %d that occurs only in a rejected statement: ...%q...", m, raw[lo:hi])
+					return vs
+				}
 			}
 		}
 		if !final {
@@ -459,9 +520,7 @@ func runSession(c SessCase) sessResult {
 		}
 		if !allowed {
 			rejectedSQL = append(rejectedSQL, r.SQL)
-			if st.Mark {
-				rejectedMarkers = append(rejectedMarkers, markerBase+int64(si))
-			}
+			rejectedMarkers = append(rejectedMarkers, stepMarkers(st)...)
 		}
 		var rep *pgsess.Reply
 		var err error
